@@ -71,7 +71,7 @@ static REGISTRY: Mutex<Vec<Arc<ThreadLog>>> = Mutex::new(Vec::new());
 static GENERATION: AtomicU64 = AtomicU64::new(1);
 static EXEC_SEED: AtomicU64 = AtomicU64::new(0);
 
-/// Delay injection: 0 = off, 1 = yield/spin/sleep (native), 2 = yield only.
+/// Delay injection: 0 = off, 1 = yield/spin/sleep (native), 2 = yield only, 3 = bursts of yields.
 static DELAY_MODE: AtomicU32 = AtomicU32::new(0);
 static FOCUS_LO: AtomicU64 = AtomicU64::new(0);
 static P_FOCUS: AtomicU32 = AtomicU32::new(256); // out of 1024
@@ -336,6 +336,11 @@ fn on_probe(s: u32, arg: usize) {
                 }
                 if mode == 2 {
                     delay = 1;
+                } else if mode == 3 {
+                    // Bursts of yields (Miri: a thread held back for a long stretch
+                    // of the other threads' execution, at no wall-clock cost).
+                    delay = 4;
+                    amount = l.rng.range(20, 400);
                 } else {
                     let r = l.rng.below(100);
                     if r < 40 {
@@ -363,6 +368,11 @@ fn on_probe(s: u32, arg: usize) {
             }
         }
         3 => std::thread::sleep(std::time::Duration::from_micros(amount)),
+        4 => {
+            for _ in 0..amount {
+                std::thread::yield_now();
+            }
+        }
         _ => {}
     }
 }
